@@ -1,9 +1,43 @@
-(* C02 (serix Decode part) - totality and resource bounds of the model's decode. Statements only. *)
+(* C02 (serix Decode part) - the model of serix.API.Decode is total and never over-consumes. Statements only. *)
 From Coq Require Import List NArith ZArith Bool.
-From Verif.C01_Serix Require Import Model Layout.
+From Verif.C01_Serix Require Import Model Bound.
 Import ListNotations.
 Open Scope N_scope.
 
-Theorem C02_layout_placeholder_bool : forall val d b, encode val d SBool (VBool b) = Ok [if b then 1 else 0].
-Proof. exact layout_bool. Qed.
-Print Assumptions C02_layout_placeholder_bool.
+(* For ALL schemas (no well-formedness needed), both validation modes and ALL byte strings: the outcome is a value or
+   an error, never a Go panic. The model contains Panic outcomes exactly where the Go code would slice out of range
+   when a nested decoder reported more bytes than it was given (decodeMapKVPair: b[keyBytesRead:],
+   ReadSequenceOfObjects: srcBefore[:bytesRead] / d.src[d.offset:]). *)
+Theorem C02_no_panic : forall val s b, Decode val s b <> Panic.
+Proof. exact Decode_no_panic. Qed.
+
+Theorem C02_no_panic_inner : forall val tot s b, decode val tot s b <> Panic.
+Proof. exact decode_no_panic. Qed.
+
+(* ... and a successful decode never reports more consumed bytes than were supplied. *)
+Theorem C02_consumed : forall val s b v n, Decode val s b = Ok (v, n) -> (n <= length b)%nat.
+Proof. exact Decode_consumed. Qed.
+
+Theorem C02_consumed_inner : forall val tot s b v n, decode val tot s b = Ok (v, n) -> (n <= length b)%nat.
+Proof. exact decode_consumed. Qed.
+
+(* the pinned code did panic on every input for arrays of non-byte elements (D01a) and for lenPrefix=uint64 (D01b);
+   both are repaired in /repo and the model mirrors the repaired code. *)
+
+(* Iteration bound of the sequence loop: the loop of ReadSequenceOfObjects runs at most [length input + 1] times
+   unless the elements can be empty on the wire. *)
+Theorem C02_seq_iterations : forall cnt len tot fuel,
+  seq_fuel false cnt len tot = Some fuel -> (fuel <= len + 1)%nat.
+Proof. exact seq_iterations. Qed.
+
+(* Finding D02d: with zero-size elements the count alone drives the loop - 65535 iterations from 2 bytes. *)
+Theorem C02_refuted_zero_size_iterations :
+  (forall cnt len tot, cnt <= N.of_nat tot + 1 -> seq_fuel true cnt len tot = Some (N.to_nat cnt)) /\
+  zero_size (SStruct None FNil) = true /\
+  Decode false (SSlice L16 (mkAR 0 0 false false false false [] false) (SStruct None FNil)) [255; 255] = Err EUnbounded.
+Proof. exact refuted_zero_size_iterations. Qed.
+
+Print Assumptions C02_no_panic.
+Print Assumptions C02_consumed.
+Print Assumptions C02_seq_iterations.
+Print Assumptions C02_refuted_zero_size_iterations.
